@@ -60,6 +60,11 @@ def run(chk):
     chk.extra['exhaustive_to_length'] = maxlen
     n = 60000 if chk.tier == 'quick' else 1200000
     lits2 = list(dict.fromkeys((rng.choice("'\"`"), ''.join(rng.choice(ALPHA) for _ in range(rng.randint(maxlen + 1, 6)))) for _ in range(n)))
+    # characters outside the property's alphabet that a scanner may be tempted to normalise: CR, CR LF, tab, line separators
+    ODD = ['\r', '\r\n', '\t', '\u2028', '\u0085', '\ufeff', 'a', '\\', 'n', '`', '"', "'", '\n']
+    lits2 += list(dict.fromkeys((q, ''.join(rng.choice(ODD) for _ in range(rng.randint(1, 5)))) for q in "'\"`" for _ in range(n // 30)))
+    lits2 += [(q, pre_ + o + post_) for q in '"`' for o in ODD[:6] for pre_ in ('', 'a', 'a\n' if q == '`' else 'ab') for post_ in ('', 'b')]
+    lits2 = list(dict.fromkeys(lits2))
     HEX = '0123456789abcdefABCDEF'
     def esc():
         r = rng.random()
